@@ -559,3 +559,46 @@ M("cut-final-max-k", ["C16"], UNS, "        self.subgraph.best_k = best_k\n\n   
   "        self.subgraph.best_k = best_k\n\n        self.subgraph.create_arcs(\n            max_k,")
 M("fit-final-clustering-min-k", ["C16"], UNS, "        self._clustering(self.subgraph.best_k)\n", "        self._clustering(self.min_k)\n")
 M("learn-bestk-preinit", ["~C16"], KNN, "        max_acc = -1.0\n", "        max_acc = 0.0\n        best_k = 1\n")
+
+# ---------------------------------------------------------------------------
+# learn / relevance / prune (C17)
+# ---------------------------------------------------------------------------
+M("learn-revert-view-swap", ["C17"], SUP,
+  "                        X_train[j, :], X_val[err, :] = (\n                            X_val[err, :].copy(),\n                            X_train[j, :].copy(),\n                        )",
+  "                        X_train[j, :], X_val[err, :] = X_val[err, :], X_train[j, :]")
+M("learn-copy-only-first", ["C17"], SUP,
+  "                            X_val[err, :].copy(),\n                            X_train[j, :].copy(),\n",
+  "                            X_val[err, :].copy(),\n                            X_train[j, :],\n")
+M("learn-revert-self-rebind", ["C17"], SUP, "                self.__dict__.update(best_opf.__dict__)", "                self = best_opf")
+M("learn-revert-sentinel", ["C17"], SUP, "        max_acc = -1\n", "        max_acc = 0\n")
+M("learn-revert-int-array", ["C17"], SUP,
+  "                    j = int(r.generate_uniform_random_number(0, len(X_train))[0])", "                    j = int(r.generate_uniform_random_number(0, len(X_train)))")
+M("learn-revert-argwhere", ["C17"], SUP, "            errors = np.argwhere(Y_val != preds).flatten()", "            errors = np.argwhere(Y_val != preds)")
+M("learn-labels-one-way", ["C17"], SUP,
+  "                        Y_train[j], Y_val[err] = Y_val[err], Y_train[j]", "                        Y_train[j] = Y_val[err]")
+M("learn-label-rows-mismatch", ["C17"], SUP,
+  "                        Y_train[j], Y_val[err] = Y_val[err], Y_train[j]", "                        Y_train[j], Y_val[err] = Y_val[err], Y_train[j - 1]")
+M("learn-snapshot-alias", ["C17"], SUP, "                best_opf = copy.deepcopy(self)", "                best_opf = self")
+M("learn-keeps-worst", ["C17"], SUP, "            if acc > max_acc:\n                max_acc = acc\n                best_opf",
+  "            if acc < max_acc:\n                max_acc = acc\n                best_opf")
+M("learn-install-last", ["C17"], SUP, "                self.__dict__.update(best_opf.__dict__)", "                self.__dict__.update(self.__dict__)")
+M("predict-revert-f6", ["C17"], SUP, "            k = self.subgraph.idx_nodes[j]\n            conqueror = k\n", "            k = self.subgraph.idx_nodes[j]\n            conqueror = -1\n")
+M("predict-conqueror-stale", ["C17"], SUP, "                    conqueror = l\n", "                    conqueror = k\n")
+M("predict-mark-skipped-for-protos", ["C17"], SUP,
+  "            if conqueror > -1:\n                self.subgraph.mark_nodes(conqueror)",
+  "            if conqueror > -1 and self.subgraph.nodes[conqueror].pred != c.NIL:\n                self.subgraph.mark_nodes(conqueror)")
+M("mark-nodes-skips-root", ["C17"], SUBG,
+  "            i = self.nodes[i].pred\n\n        self.nodes[i].relevant = c.RELEVANT\n", "            i = self.nodes[i].pred\n")
+M("mark-nodes-skips-start", ["C17"], SUBG,
+  "        while self.nodes[i].pred != c.NIL:\n            self.nodes[i].relevant = c.RELEVANT\n            i = self.nodes[i].pred\n",
+  "        while self.nodes[i].pred != c.NIL:\n            i = self.nodes[i].pred\n            self.nodes[i].relevant = c.RELEVANT\n")
+M("prune-label-other-row", ["C17"], SUP, "                    Y_temp.append(Y_train[j])", "                    Y_temp.append(Y_train[j - 1])")
+M("prune-keeps-irrelevant", ["C17"], SUP, "                if n.relevant != c.IRRELEVANT:", "                if n.relevant == c.IRRELEVANT:")
+M("prune-lists-not-reset", ["C17"], SUP,
+  "        for t in range(n_iterations):\n            logger.info(\"Running iteration %d/%d ...\", t + 1, n_iterations)\n\n            X_temp, Y_temp = [], []\n",
+  "        X_temp, Y_temp = [], []\n        for t in range(n_iterations):\n            logger.info(\"Running iteration %d/%d ...\", t + 1, n_iterations)\n\n")
+M("prune-label-unconditional", ["C17"], SUP,
+  "                    X_temp.append(X_train[j, :])\n                    Y_temp.append(Y_train[j])", "                    X_temp.append(X_train[j, :])\n                Y_temp.append(Y_train[j])")
+M("learn-np-copy", ["~C17"], SUP,
+  "                            X_val[err, :].copy(),\n                            X_train[j, :].copy(),\n",
+  "                            np.copy(X_val[err, :]),\n                            np.copy(X_train[j, :]),\n")
